@@ -216,6 +216,17 @@ def noise(repo, chk):
     stmts = sorted([n for n in own_nodes(fn.node) if isinstance(n, (ast.Assign, ast.For))], key=lambda s: s.lineno)
     arrays_idx = {n.targets[0].id for n in stmts if isinstance(n, ast.Assign) and isinstance(n.targets[0], ast.Name) and isinstance(n.value, ast.Call) and isinstance(n.value.func, ast.Attribute) and n.value.func.attr == 'argsort'}
     verdicts = []
+    blocks = {}      # name -> (parent block id of its last assignment)
+    _own_set = own.__setitem__
+
+    def setown(name, status, stmt):
+        blk = id(par.get(stmt))
+        prev = blocks.get(name)
+        if prev is not None and _sibling_branches(par, prev[2], stmt):
+            # assigned in alternative branches of one if/else: either may reach the later write -> keep the worse status
+            status = 'alias' if 'alias' in (status, own.get(name)) else status
+        own[name] = status
+        blocks[name] = (blk, status, stmt)
     for s in stmts:
         if isinstance(s, ast.Assign) and isinstance(s.targets[0], ast.Subscript) and isinstance(s.targets[0].value, ast.Name) and s.targets[0].value.id in own:
             verdicts.append((s, s.targets[0].value.id, own[s.targets[0].value.id]))
@@ -223,17 +234,20 @@ def noise(repo, chk):
             v = s.value
             name = s.targets[0].id
             if isinstance(v, ast.Attribute) and v.attr == 'T' and isinstance(v.value, ast.Name) and v.value.id in own:
-                own[name] = own[v.value.id]
+                setown(name, own[v.value.id], s)
             elif isinstance(v, ast.Subscript) and isinstance(v.value, ast.Name) and v.value.id in own and v.value.id != X:
-                own[name] = own[v.value.id] if not isinstance(v.slice, ast.Name) else 'fresh'
+                setown(name, own[v.value.id] if not isinstance(v.slice, ast.Name) else 'fresh', s)
             else:
                 st = _fresh(v, X, m)
                 if st.startswith('fresh-if-array:'):
                     st = 'fresh' if st.split(':')[1] in arrays_idx else 'alias'
                 if st != 'unknown':
-                    own[name] = st
+                    setown(name, st, s)
                 elif isinstance(v, ast.Name) and v.id in own:
-                    own[name] = own[v.id]
+                    setown(name, own[v.id], s)
+                elif isinstance(v, ast.IfExp):
+                    sts = [_fresh(b, X, m) for b in (v.body, v.orelse)]
+                    setown(name, 'alias' if any(x != 'fresh' for x in sts) else 'fresh', s)
         if isinstance(s, ast.For) and isinstance(s.target, ast.Name) and isinstance(s.iter, ast.Name) and s.iter.id in own:
             own[s.target.id] = own[s.iter.id]      # rows of an array are views of it
     writes = [n for n in own_nodes(fn.node) if isinstance(n, ast.Assign) and isinstance(n.targets[0], ast.Subscript) and isinstance(n.targets[0].value, ast.Name)]
@@ -279,3 +293,18 @@ def downsample(repo, chk):
     chk.expect(len(acc) == 1 and len(cat) == 1 and len(ycat) == 1, 'C20.6g', 'R13', fn.site(acc[0]) if acc else fn.site(), 'per class: rows appended, labels concatenated; result = concatenation over the classes', 'the result holds the n rows and n labels of every class', 'the per-class samples and labels must be accumulated and concatenated over all classes')
     g = [n for n in own_nodes(fn.node) if isinstance(n, ast.If) and 'min(counts)' in ast.unparse(n.test) and any(isinstance(x, ast.Raise) for x in n.body)]
     chk.expect(len(g) == 1 and ast.unparse(g[0].test) == 'n > min(counts)', 'C20.6e', 'R14', fn.site(g[0]) if g else fn.site(), ast.unparse(g[0].test) if g else '', 'n larger than the minority class is rejected', 'n > min(counts) must be rejected')
+
+
+def _sibling_branches(par, a, b):
+    """a and b sit in different branches (body / orelse) of the same if statement chain"""
+    def chain(n):
+        out = []
+        cur = par.get(n)
+        child = n
+        while cur is not None:
+            if isinstance(cur, ast.If):
+                out.append((id(cur), 'body' if any(child is x for x in cur.body) else 'orelse'))
+            child, cur = cur, par.get(cur)
+        return out
+    ca, cb = dict(chain(a)), dict(chain(b))
+    return any(k in cb and cb[k] != v for k, v in ca.items())
